@@ -17,6 +17,9 @@ from .common import (Stats, Violation, cell_seed, load_known, dump_case,
                      RUN_DIR, write_replay)
 
 
+COLLECT = int(os.environ.get("VP_COLLECT", "0"))
+
+
 def run_cell(mod, prop, cell, seed, tier, known):
     """Run one cell; returns a result dict."""
     import hypothesis
@@ -55,6 +58,13 @@ def run_cell(mod, prop, cell, seed, tier, known):
                     stats.muted += 1
                 else:
                     unknown.append(f)
+            if COLLECT:
+                for f in unknown:
+                    key = "fail:" + "/".join(f["bucket"].split("/")[:COLLECT])
+                    stats.extra[key] = stats.extra.get(key, 0) + 1
+                    if key not in stats.known_samples:
+                        stats.known_samples[key] = {"case": case, "failure": f}
+                unknown = []
             stats.record(case, info, bool(fails))
             if unknown:
                 state["last_fail"] = (case, unknown)
